@@ -3,6 +3,7 @@ from ir import last_seg
 import analysis as A
 import common as K
 import sqlmod
+import sqlrules
 import predicates as P
 
 
@@ -140,6 +141,12 @@ def clause_rollback_releases(prog, rep):
     rep.floor("rollback-discards-suffix", "manager functions performing a storage rollback", n, 1)
 
 
+def clause_age_preserved(prog, rep, sites):
+    """the TTL prune goes by the row's created_at: a rollback must hand the surviving snapshots back with the created_at they had,
+    otherwise every rollback rejuvenates them and snapshots older than the TTL are kept"""
+    sqlrules.sibling_snapshot_copy(prog, rep, sites, "ttl-prune-at-build", "rollback/")
+
+
 def clause_ttl(prog, rep, sites):
     fs = prog.find(adt="MdkBuilder", name="build", crate="mdk_core")
     rep.floor("ttl-prune-at-build", "MdkBuilder::build", len(fs), 1)
@@ -206,3 +213,4 @@ def run(ctx, rep):
     clause_prune_after_push(prog, rep)
     clause_rollback_releases(prog, rep)
     clause_ttl(prog, rep, sites)
+    clause_age_preserved(prog, rep, sites)
